@@ -17,6 +17,7 @@ var sendWorkers = []string{"transports.(*polling).send", "transports.(*websocket
 
 func init() {
 	register("C01", func(c *core.Ctx, tier string) {
+		c08UpgradeBranchWiring(c, "C01.26") // what was buffered while the upgrade was under way goes to the new transport before a pending graceful close closes it
 		pollInstalledOnlyWhileClientIsThere(c, "C01.25")
 		checkUnderFlushMu(c, "C01.21")
 		jsonpNoBinary(c, "C01.22")
